@@ -34,7 +34,7 @@ CLAIMED = {
    tech="contract-based deductive verification with CBMC on mechanically extracted function text (route F), callers checked against assumed contracts of the finite number classes"),
  "C05": dict(cat="proof", design="§4 C05",
    text="Contract proof (CBMC, loop-free, full 64-bit operand domain) on the real text of the normalisation glue that symengine adds on top of GMP: "
-        "Integer::divint/rdiv/powint/pow_negint/neg, Rational::from_mpq (both overloads)/from_two_ints (both)/is_canonical and the inline "
+        "Integer::divint/rdiv/powint/pow_negint/neg/addint/subint/mulint and the virtual dispatchers add/sub/mul/div/pow of Integer and Rational (exact x exact: exact normalised value; any other kind: forwarded to the matching reverse operation), Rational::from_mpq (both overloads)/from_two_ints (both)/is_canonical and the inline "
         "addrat/subrat/rsubrat/mulrat/divrat/rdivrat/powrat, Complex::from_mpq/from_two_rats/from_two_nums/is_canonical and Complex::powcomp (imaginary base: q^n times i^(n mod 4) for every exponent sign), against the assumed GMP contracts: "
         "results are normalised (lowest terms, positive denominator, Integer iff denominator 1, real iff imaginary part 0), x/0 is zoo and 0/0 nan, "
         "0**negative is zoo, and every GMP precondition (non-zero denominator/divisor) is discharged at its call site. Exact *values* of the results are "
